@@ -77,7 +77,11 @@ func TestC05Random(t *testing.T) {
 			st.Class("random:claimed")
 			if faulty && d >= 1 {
 				st.Class("random:faulty")
-				st.NonTrivial(fmt.Sprint("r", d, c.Beh, c.Siblings, c.Below), func() interface{} { return c })
+				// a random plan that is also one of the enumerated ones (same depth range, no extra commands, one run) is
+				// already counted there
+				if d > EnvInt("VERIF_C05_DEPTH", 4) || c.Siblings || c.Below || c.Twice || c.HelpIn != nil {
+					st.NonTrivial(fmt.Sprint("r", d, c.Beh, c.Siblings, c.Below, c.Twice, c.HelpIn), func() interface{} { return c })
+				}
 			}
 			if d >= 6 {
 				st.Class("random:depth>=6")
